@@ -143,7 +143,7 @@ CLAIMED = {
         design="§4 C16", technique="source-to-Coq translation of write sets + Coq table theorems (vm_compute) + exhaustive pairwise exploration of the implementation",
         note="that a move-and-restore query restores exactly, and aliasing of handed-out arrays, are outside the write-set abstraction and decided by the exploration."),
     "C15": dict(
-        text="Exact oracle in Coq: simple_bf (definition of a simple cycle), proper_cross_bf, touch_bf; theorems: a proper crossing yields an explicit common "
+        text="The exact oracle is proved to be the definition: seg_meet <-> the two closed segments share a point (all real coordinates, collinear / touching / zero-length cases included), fold_back <-> consecutive edges overlap beyond their common vertex. Exact oracle in Coq: simple_bf (definition of a simple cycle), proper_cross_bf, touch_bf; theorems: a proper crossing yields an explicit common "
              "point of the two open edges (sound 'clearly invalid' class), Paramcoq transfer of the oracles, constructors establish radii only through "
              "guarded setters (read off the source each run). Correspondence: Polygon accepts exactly the simple cycles and raises ValueError on properly "
              "crossing / duplicate / <3 / off-plane input (lattice, comb/spiral, tilted planes, the Bentley-Ottmann vertical-edge case); every permutation of "
